@@ -9,6 +9,7 @@
 import ProphyModel.Accept
 import ProphyModel.Lemmas.WFAccept
 import ProphyModel.Lemmas.AcceptImplies
+import ProphyModel.Lemmas.ModelAccept
 namespace Prophy.C12
 open Prophy Prophy.Accept
 
@@ -96,5 +97,29 @@ theorem C12_shift_needs_the_runtime_check : ¬ (∀ t : Ty, front t = true → p
 theorem C12_stiffness_bridge (t : Ty) (ht : front t = true) :
     ((PL.nodeTy t).kind = 0 ↔ (Py.stTy t).dyn = false) ∧ ((PL.nodeTy t).kind = 2 ↔ (Py.stTy t).unl = true) ∧ (PL.nodeTy t).kind ≤ 2 :=
   Accept.stTy_kind_p12 t ht
+
+/-- EVERY FRONT-END: the validation `model.evaluate_model` applies to the nodes of any front-end and patch (`Accept.model`)
+    refuses nothing the prophy parser accepts ... -/
+theorem C12_model_validation_accepts_what_the_parser_accepts (t : Ty) (h : front t = true) : Accept.model t = true :=
+  Accept.model_of_front t h
+
+/-- ... and is as strict as the parser on everything the language can express (`Accept.grammar`: containers have members,
+    `byte` only as array element): a rule breaker is refused whether it comes from prophy text, isar XML or a patch -/
+theorem C12_model_validation_is_as_strict_as_the_parser (t : Ty) (hm : Accept.model t = true) (hg : Accept.grammar t = true) :
+    front t = true :=
+  Accept.front_of_model t hm hg
+
+theorem C12_front_is_model_and_grammar (t : Ty) : front t = (Accept.model t && Accept.grammar t) :=
+  Accept.front_eq_model_and_grammar t
+
+/-- hence whatever ANY front-end lets through (and the language can express) the Python runtime can realise -/
+theorem C12_any_front_end_realisable (t : Ty) (hm : Accept.model t = true) (hg : Accept.grammar t = true)
+    (hns : Accept.noShift t = true) : pyRt t = true :=
+  C12_accepted_realisable t (Accept.front_of_model t hm hg) hns
+
+/-- non-vacuity and the difference between the two: a struct without members passes the model validation (finding D56),
+    the grammar cannot write it -/
+example : Accept.model (.struct "E" []) = true ∧ front (.struct "E" []) = false := by decide
+
 
 end Prophy.C12
